@@ -71,7 +71,8 @@ claim('C15', "PaneConverter: __init__ (input-name map), layout gate, struct deci
       "a symbolic field list; FieldSpec.make_field (derivation of input names and output name) proved.",
       note="positional bounds computed by _process are checked by the bounded class-hierarchy contract, not symbolically.")
 claim('C16', "Generated __eq__ / _pane_ord / __hash__ proved (class modulo generic parameters + compare-fields; lexicographic order consistent with equality; hash of exactly "
-      "the hash-fields tuple); the hash rule table proved equal to the standard-library table (16 rows, exhaustive); from_dict_unchecked keeps the set-field record.",
+      "the hash-fields tuple); the hash rule table proved equal to the standard-library table (16 rows, exhaustive); from_dict_unchecked keeps the set-field record. BOUNDED: that the stored record is the instance's own set, not the caller's (object identity of .copy() is not "
+      "modelled symbolically), is a run-time contract over every pool class x four records.",
       note="_maybe_make_hash proved to apply the table entry; documented class options proved accepted (signature obligation); the ordering wrappers proved to be the sign of "
            "_pane_ord; field() proved to default hash to compare; __setattr__/__delattr__/__copy__/__deepcopy__/__replace__/__repr__/dict proved against their specifications.")
 claim('C17', "Option inheritance proved (PaneOptions.replace, __init_subclass__: a passed option overrides, an absent one is inherited, incl. class handlers); field merge over the MRO, "
